@@ -6,6 +6,7 @@ import (
 	"fmt"
 	"go/constant"
 	"go/types"
+	"sort"
 	"strings"
 
 	"golang.org/x/tools/go/ssa"
@@ -799,11 +800,11 @@ func (x *Exec) evalIndex(env *SpecEnv, e *EIndex) SVal {
 	switch b := base.V.(type) {
 	case VStr:
 		i := x.evalInt(env, e.I)
-		return SVal{VScalar{x.sat(b.Base, addSimpl(b.Off, i))}, goT(types.Typ[types.Uint8])}
+		return SVal{VScalar{x.sat(b.Base, At(b.Off, i))}, goT(types.Typ[types.Uint8])}
 	case VSlice:
 		i := x.evalInt(env, e.I)
 		et := base.T.G.Underlying().(*types.Slice).Elem()
-		p := &Place{Kind: PElem, Ref: b.Arr, Idx: addSimpl(b.Off, i), Root: et, Typ: et}
+		p := &Place{Kind: PElem, Ref: b.Arr, Idx: At(b.Off, i), Root: et, Typ: et}
 		return SVal{x.loadQuiet(env, p), goT(et)}
 	case VSet:
 		k := x.eval(env, e.I)
@@ -957,8 +958,141 @@ func (x *Exec) evalQuant(env *SpecEnv, e *EQuant) SVal {
 		q = "exists"
 	}
 	txt := body.S
+	if len(pats) == 0 {
+		pats = autoPatterns(body.S, binders)
+	}
 	if len(pats) > 0 {
 		txt = "(! " + txt + " " + strings.Join(pats, " ") + ")"
 	}
 	return SVal{VScalar{Term{fmt.Sprintf("(%s (%s) %s)", q, strings.Join(binders, " "), txt), SBool}}, boolT}
+}
+
+// autoPatterns chooses E-matching triggers for a quantifier body: innermost applications of
+// select / uninterpreted functions that mention bound variables.
+func autoPatterns(body string, binders []string) []string {
+	var vars []string
+	for _, b := range binders {
+		f := strings.Fields(strings.Trim(b, "()"))
+		if len(f) > 0 {
+			vars = append(vars, f[0])
+		}
+	}
+	sx := parseSexprs(body)
+	if len(sx) == 0 {
+		return nil
+	}
+	type cand struct {
+		text string
+		vars map[string]bool
+		size int
+	}
+	var cands []cand
+	isVar := func(a string) bool {
+		for _, v := range vars {
+			if a == v {
+				return true
+			}
+		}
+		return false
+	}
+	okHead := func(h string) bool {
+		switch h {
+		case "select", "sat", "slen", "ssub", "ofbytes", "tolower", "sconcat":
+			return true
+		}
+		return strings.HasPrefix(h, "spec.") || strings.HasPrefix(h, "unbox.") || strings.HasPrefix(h, "card.") || strings.HasPrefix(h, "addr.") || strings.HasPrefix(h, "f64.")
+	}
+	var walk func(n *sexpr) (map[string]bool, int, bool) // vars, size, containsCandidate-with-all-its-vars
+	walk = func(n *sexpr) (map[string]bool, int, bool) {
+		vs := map[string]bool{}
+		if !n.isL {
+			if isVar(n.atom) {
+				vs[n.atom] = true
+			}
+			return vs, 1, false
+		}
+		size := 1
+		childCand := false
+		var childCandVars []map[string]bool
+		for _, c := range n.list {
+			cv, cs, cc := walk(c)
+			for v := range cv {
+				vs[v] = true
+			}
+			size += cs
+			if cc {
+				childCand = true
+				childCandVars = append(childCandVars, cv)
+			}
+		}
+		if len(n.list) == 0 || n.list[0].isL {
+			return vs, size, childCand
+		}
+		h := n.list[0].atom
+		if h == "forall" || h == "exists" || h == "lambda" || h == "!" || h == "let" {
+			return vs, size, true // do not build patterns across nested binders
+		}
+		if okHead(h) && len(vs) > 0 {
+			// skip if a child candidate already covers the same variables
+			covered := false
+			for _, cv := range childCandVars {
+				if len(cv) == len(vs) {
+					covered = true
+				}
+			}
+			if !covered {
+				cands = append(cands, cand{n.String(), vs, size})
+			}
+			return vs, size, true
+		}
+		return vs, size, childCand
+	}
+	walk(sx[0])
+	if len(cands) == 0 {
+		return nil
+	}
+	// de-duplicate
+	seen := map[string]bool{}
+	var uniq []cand
+	for _, c := range cands {
+		if !seen[c.text] {
+			seen[c.text] = true
+			uniq = append(uniq, c)
+		}
+	}
+	cands = uniq
+	sort.Slice(cands, func(i, j int) bool { return cands[i].size < cands[j].size })
+	var pats []string
+	for _, c := range cands {
+		if len(c.vars) == len(vars) && len(pats) < 3 {
+			pats = append(pats, ":pattern ("+c.text+")")
+		}
+	}
+	if len(pats) > 0 {
+		return pats
+	}
+	// greedy multi-pattern
+	need := map[string]bool{}
+	for _, v := range vars {
+		need[v] = true
+	}
+	var multi []string
+	for _, c := range cands {
+		adds := false
+		for v := range c.vars {
+			if need[v] {
+				adds = true
+			}
+		}
+		if adds {
+			multi = append(multi, c.text)
+			for v := range c.vars {
+				delete(need, v)
+			}
+		}
+	}
+	if len(need) == 0 && len(multi) > 0 {
+		return []string{":pattern (" + strings.Join(multi, " ") + ")"}
+	}
+	return nil
 }
